@@ -234,6 +234,8 @@ where
                     return Err(Error::RewindLeavesLength.into());
                 }
 
+                #[cfg(sos_verif)]
+                sos_core::verif_probe::hit("fs_log_rewind:before_truncate");
                 // Truncate the file to the new length
                 let file =
                     OpenOptions::new().write(true).open(&self.data).await?;
@@ -341,10 +343,14 @@ where
             file.seek(SeekFrom::End(0)).await?;
         }
 
+        #[cfg(sos_verif)]
+        sos_core::verif_probe::hit("fs_log_append:before_write");
         let mut guard = file.lock_write().await.map_err(|e| e.error)?;
         match guard.write_all(&buffer).await {
             Ok(_) => {
                 guard.flush().await?;
+                #[cfg(sos_verif)]
+                sos_core::verif_probe::hit("fs_log_append:after_write");
                 let mut hashes =
                     commits.iter().map(|c| *c.as_ref()).collect::<Vec<_>>();
                 self.tree.append(&mut hashes);
@@ -404,11 +410,20 @@ where
         // Create a snapshot for disc-based implementations
         let snapshot = self.try_create_snapshot().await?;
 
+        #[cfg(sos_verif)]
+        sos_core::verif_probe::hit("fs_log_replace:after_snapshot");
+
         // Erase the file content and in-memory merkle tree
         self.clear().await?;
 
+        #[cfg(sos_verif)]
+        sos_core::verif_probe::hit("fs_log_replace:after_clear");
+
         // Apply the new events
         self.patch_unchecked(&diff.patch).await?;
+
+        #[cfg(sos_verif)]
+        sos_core::verif_probe::hit("fs_log_replace:after_patch");
 
         // Verify against the checkpoint, when the patch was
         // empty there is no head and verification fails
@@ -528,6 +543,9 @@ where
             .await?;
 
         file.seek(SeekFrom::Start(0)).await?;
+
+        #[cfg(sos_verif)]
+        sos_core::verif_probe::hit("fs_log_truncate:after_truncate");
 
         let mut guard = file.lock_write().await.map_err(|e| e.error)?;
         guard.write_all(self.identity).await?;
@@ -682,6 +700,8 @@ where
         );
 
         vfs::remove_file(&source_path).await?;
+        #[cfg(sos_verif)]
+        sos_core::verif_probe::hit("fs_log_rollback:after_remove");
         vfs::rename(snapshot_path, &source_path).await?;
         self.load_tree().await?;
 
